@@ -236,4 +236,111 @@ theorem holdsSharp_boundary (limit : Nat) (ok exhausted : Bool) (want got echo :
   · have h : ¬ (limit + 1 ≤ limit) := by omega
     simp [holdsSharp, accepts, h]
 
+/-! ## whole suites: the directives are honoured in every suite the loader accepts -/
+
+/-- the messages of one accepted test case -/
+theorem expandMsgs_padded (limit : Nat) (ds : List Directive) (ls : List Nat)
+    (h : expandMsgs limit ds = some ls) :
+    ds.length = ls.length ∧ (ds.zip ls).all (fun q => directivePadded limit q.1 q.2) = true := by
+  induction ds generalizing ls with
+  | nil => simp [expandMsgs] at h; subst h; simp
+  | cons d ds ih =>
+    unfold expandMsgs at h
+    cases hoff : d.off with
+    | none =>
+      rw [hoff] at h
+      simp only [Option.map_eq_some_iff] at h
+      obtain ⟨t, ht, rfl⟩ := h
+      obtain ⟨hl, ha⟩ := ih t ht
+      refine ⟨by simp [hl], ?_⟩
+      rw [List.zip_cons_cons, List.all_cons, ha, Bool.and_true]
+      simp [directivePadded, msgPadded, hoff]
+    | some off =>
+      rw [hoff] at h
+      simp only at h
+      cases hx : expand limit d.r d.l0 off with
+      | ok L =>
+        rw [hx] at h
+        simp only [Option.map_eq_some_iff] at h
+        obtain ⟨t, ht, rfl⟩ := h
+        obtain ⟨hl, ha⟩ := ih t ht
+        have hex := expand_exact limit d.r d.l0 off L hx
+        refine ⟨by simp [hl], ?_⟩
+        rw [List.zip_cons_cons, List.all_cons, ha, Bool.and_true]
+        simp [directivePadded, msgPadded, hoff, holdsExpand, hex]
+      | range => rw [hx] at h; cases h
+      | negLen => rw [hx] at h; cases h
+      | cantPad c => rw [hx] at h; cases h
+      | panic => rw [hx] at h; cases h
+
+/-- **Exactness for suites**: whenever `parseTestSuites` accepts a suite — whatever its
+attributes, in particular with or without `reliesOnMessageReceiveLimit` — every request with a
+directive has exactly `limit + off` bytes and every other request is untouched. -/
+theorem suite_expand_exact (limit : Nat) (protoOnly relies : Bool) (cases : List SuiteCase)
+    (out : List (List Nat)) (h : parseSuite limit protoOnly relies cases = some out) :
+    suitePadded limit cases out = true := by
+  induction cases generalizing out with
+  | nil => simp [parseSuite] at h; subst h; simp [suitePadded]
+  | cons c cs ih =>
+    unfold parseSuite at h
+    split at h
+    · cases h
+    · cases hc : expandCase limit c with
+      | none => rw [hc] at h; cases h
+      | some ls =>
+        rw [hc] at h
+        simp only [Option.map_eq_some_iff] at h
+        obtain ⟨t, ht, rfl⟩ := h
+        have hrec := ih t ht
+        unfold expandCase at hc
+        split at hc
+        · cases hc
+        · obtain ⟨hl, ha⟩ := expandMsgs_padded limit c.msgs ls hc
+          unfold suitePadded at hrec ⊢
+          simp only [Bool.and_eq_true, beq_iff_eq] at hrec
+          simp [List.zip_cons_cons, List.all_cons, hl, ha, hrec.1, hrec.2]
+
+/-- no suite attribute switches the directives off: the loader's treatment of the directives
+does not depend on `reliesOnMessageReceiveLimit` -/
+theorem suite_flag_irrelevant (limit : Nat) (protoOnly : Bool) (cases : List SuiteCase) :
+    parseSuite limit protoOnly false cases = parseSuite limit protoOnly true cases := by
+  induction cases with
+  | nil => rfl
+  | cons c cs ih => unfold parseSuite; rw [ih]
+
+/-- **Unreachable sizes reject the suite**: a single directive, anywhere in the suite, whose
+target no padding length gives makes `parseTestSuites` fail — in every suite. -/
+theorem suite_unreachable_rejected (limit : Nat) (protoOnly relies : Bool) (cases : List SuiteCase)
+    (c : SuiteCase) (hc : c ∈ cases) (d : Directive) (hd : d ∈ c.msgs) (off : Int) (ho : d.off = some off)
+    (hun : ∀ L, (size d.r L : Int) ≠ (limit : Int) + off) :
+    parseSuite limit protoOnly relies cases = none := by
+  cases hp : parseSuite limit protoOnly relies cases with
+  | none => rfl
+  | some out =>
+    exfalso
+    have hs := suite_expand_exact limit protoOnly relies cases out hp
+    unfold suitePadded at hs
+    simp only [Bool.and_eq_true, beq_iff_eq, List.all_eq_true] at hs
+    obtain ⟨hlen, hall⟩ := hs
+    obtain ⟨i, hi, rfl⟩ := List.getElem_of_mem hc
+    have hi' : i < out.length := hlen ▸ hi
+    have hmem : (cases[i], out[i]) ∈ cases.zip out := by
+      rw [List.mem_iff_getElem]
+      exact ⟨i, by rw [List.length_zip]; omega, by simp⟩
+    obtain ⟨hl2, hall2⟩ := hall _ hmem
+    obtain ⟨j, hj, rfl⟩ := List.getElem_of_mem hd
+    have hj' : j < out[i].length := hl2 ▸ hj
+    have hmem2 : ((cases[i]).msgs[j], out[i][j]) ∈ (cases[i]).msgs.zip out[i] := by
+      rw [List.mem_iff_getElem]
+      exact ⟨j, by rw [List.length_zip]; omega, by simp⟩
+    have := hall2 _ hmem2
+    simp [directivePadded, msgPadded, ho, holdsExpand] at this
+    exact hun _ this
+
+/-- non-vacuity: a suite WITHOUT `reliesOnMessageReceiveLimit` whose directive asks for exactly
+the limit is padded to 204800 bytes; the size skipped at the 2→3 byte boundary of the length
+prefix rejects it -/
+example : parseSuite 204800 true false [⟨1, [⟨30, 0, some 0⟩, ⟨30, 5, none⟩]⟩] = some [[204766, 5]] := by decide
+example : parseSuite 204800 true false [⟨1, [⟨17, 0, some (16404 - 204800)⟩]⟩] = none := by decide
+
 end ConfModel.Props.C19
